@@ -103,6 +103,18 @@ def build(model: dict) -> Tuple[bytes, RolandLayout]:
         fat[FAT_N - 2], fat[FAT_N - 1] = 0xFFFE, 0xFFFF
     free = list(range(FIRST_CLUSTER, FIRST_CLUSTER + ncl))
     lay = RolandLayout(size, ncl)
+    # directory / parameter slot of every entity (default: its position in the model's list).  Volumes are always dense
+    # (the tool reads volume slots 0..n-1); everything else may live in any slot of its area.
+    limits = {"samples": 0x2000, "partials": 0x1000, "patches": 0x400, "performances": 0x200}
+    slot = {}
+    for kind, lim in limits.items():
+        sl = [e.get("slot", i) for i, e in enumerate(model.get(kind, []))]
+        if len(set(sl)) != len(sl) or any(not 0 <= x < lim for x in sl):
+            raise ScenarioInvalid("bad %s slots" % kind)
+        slot[kind] = sl
+
+    def ref(kind: str, lst):
+        return [slot[kind][i] if 0 <= i < len(slot[kind]) else i for i in lst]
 
     def put(off: int, data: bytes) -> None:
         b[off:off + len(data)] = data
@@ -173,8 +185,8 @@ def build(model: dict) -> Tuple[bytes, RolandLayout]:
                 else:
                     chunk = data[(j - top) * CL:(j - top + 1) * CL]
                     put(base, chunk + bytes([POISON_SLACK]) * (CL - len(chunk)))
-        dir_off = SAMP_DIR + DIR_SZ * i
-        par_off = SAMP_PAR + SAMP_PSZ * i
+        dir_off = SAMP_DIR + DIR_SZ * slot["samples"][i]
+        par_off = SAMP_PAR + SAMP_PSZ * slot["samples"][i]
         put(dir_off, direntry(sm["name"], sm.get("ftype", 0x44), sm.get("fat_entry", ch[0]), len(ch)))
         pts = b"".join(struct.pack("<I", ((a & 0xFFFFFF) << 8) | (f & 0xFF)) for a, f in sm["points"])
         body = s(sm.get("pname", sm["name"]), 16) + pts + bytes([sm.get("loop_mode", 2) & 0xFF, sm.get("sl_enable", 0) & 0xFF,
@@ -191,39 +203,39 @@ def build(model: dict) -> Tuple[bytes, RolandLayout]:
         return struct.pack("<h", x) + bytes(v & 0xFF for v in e[:9])
 
     for i, pt in enumerate(model.get("partials", [])):
-        put(PART_DIR + DIR_SZ * i, direntry(pt["name"], 0x43))
-        sp = list(pt.get("samples", [])) + [-1] * 4
+        put(PART_DIR + DIR_SZ * slot["partials"][i], direntry(pt["name"], 0x43))
+        sp = ref("samples", pt.get("samples", [])) + [-1] * 4
         body = s(pt["name"], 16) + sec(sp[0]) + b"\0" * 5 + sec(sp[1]) + b"\0" * 5 + sec(sp[2]) + b"\0" * 5 + sec(sp[3])
         body = body.ljust(PART_PSZ, b"\0")
         assert len(body) == PART_PSZ
-        put(PART_PAR + PART_PSZ * i, body)
+        put(PART_PAR + PART_PSZ * slot["partials"][i], body)
 
     # --- patches ---------------------------------------------------------------
     for i, pa in enumerate(model.get("patches", [])):
-        put(PATCH_DIR + DIR_SZ * i, direntry(pa["name"], 0x42))
-        lst = list(pa.get("partials", []))
+        put(PATCH_DIR + DIR_SZ * slot["patches"][i], direntry(pa["name"], 0x42))
+        lst = ref("partials", pa.get("partials", []))
         if len(lst) > 88:
             raise ScenarioInvalid("too many partials")
         p = lst + [-1] * (88 - len(lst))
         body = s(pa["name"], 16) + bytes(pa.get("params", [0] * 16))[:16].ljust(16, b"\0") + b"\0" * 224 + struct.pack("<88h", *p) + b"\0" * 0x50
         assert len(body) == PATCH_PSZ, len(body)
-        put(PATCH_PAR + PATCH_PSZ * i, body)
+        put(PATCH_PAR + PATCH_PSZ * slot["patches"][i], body)
 
     # --- performances ------------------------------------------------------------
     for i, pf in enumerate(model.get("performances", [])):
-        put(PERF_DIR + DIR_SZ * i, direntry(pf["name"], pf.get("ftype", 0x41)))
-        lst = list(pf.get("patches", []))
+        put(PERF_DIR + DIR_SZ * slot["performances"][i], direntry(pf["name"], pf.get("ftype", 0x41)))
+        lst = ref("patches", pf.get("patches", []))
         if len(lst) > 32:
             raise ScenarioInvalid("too many patches")
         p = lst + [-1] * (32 - len(lst))
         body = s(pf["name"], 16) + b"\0" * (208 + 16 + 16) + struct.pack("<32h", *p) + b"\0" * 0xC0
         assert len(body) == PERF_PSZ, len(body)
-        put(PERF_PAR + PERF_PSZ * i, body)
+        put(PERF_PAR + PERF_PSZ * slot["performances"][i], body)
 
     # --- volumes -------------------------------------------------------------------
     for i, vo in enumerate(model.get("volumes", [])):
         put(VOL_DIR + DIR_SZ * i, direntry(vo["name"], 0x40))
-        lst = list(vo.get("performances", []))
+        lst = ref("performances", vo.get("performances", []))
         if len(lst) > 64:
             raise ScenarioInvalid("too many performances")
         p = lst + [-1] * (64 - len(lst))
